@@ -1,8 +1,10 @@
 """C16 - plots draw the periodic lattice completely, once, and in the right colours.
 
 L1: Props/C16.lean (segment-intersection helper <=> existence of a common point for non-parallel segments over any ordered field; division-free test of
-    the model; label broadcasting: per-element = per-subset-element; image j of edge i carries colour i).  The visible-image rule is stated, not proved.
-L2: exact correspondence of `line_intersection` with the integer model on random rational segment pairs in general position.
+    the model; label broadcasting: per-element = per-subset-element; image j of edge i carries colour i; meets_visible / drawn_fractions_sum_one: the images the mask `vis` selects show the whole edge exactly once;
+    needed_copies_drawn / polyOffsets_nodup: every copy of a plaquette whose extent meets the cell is drawn, none twice).
+L2: exact correspondence of `line_intersection` with the integer model on random rational segment pairs in general position; of the visibility helpers with
+    `Plot.visible` on the nine images of every edge; of the copies `plot_plaquettes` draws with `Plot.polyOffsets`; of `_broadcast_args` with `Plot.broadcast`.
 L3: the statement on the real matplotlib artists: every drawn segment is an integer translate of a selected edge, no segment twice, the parts inside the
     unit cell of the drawn images of each edge cover the edge exactly once (exact Liang-Barsky clipping in rational arithmetic: fractions sum to 1), colours by
     label; polygons: every sample point of the cell inside a selected plaquette is covered by exactly one drawn polygon of that plaquette's colour; vertices at
@@ -152,6 +154,103 @@ def judge_polygons(idx, ref, drawn, rep):
                     rep(f"the image of plaquette {i} shifted by {(ox, oy)} meets the unit cell in area {float(a):.3e} (exact clipping) but is not drawn: points of the "
                         f"cell inside a selected plaquette are covered by no polygon", plaquette=int(i), offset=[ox, oy]); return False
     return True
+
+
+def q4(x):
+    f = Fraction(float(x))
+    return [f.numerator, f.denominator]
+
+
+def vis_margin(s, e):
+    """smallest distance of any quantity the code's visibility test compares from its threshold, in exact arithmetic (pairs of Fractions): the tie excludes
+    images for which a float rounding could change a comparison"""
+    m = min(abs(c - w) for c in (*s, *e) for w in (0, 1))
+    for a in (0, 1):
+        b = 1 - a
+        for l in (0, 1):
+            if s[a] == e[a]:
+                continue
+            t = (l - e[a]) / (s[a] - e[a])
+            other = s[b] * t + (1 - t) * e[b]
+            m = min(m, abs(t), abs(t - 1))
+            if 0 < t <= 1:
+                m = min(m, abs(other), abs(other - 1))
+    return m
+
+
+def tie_visibility(ctx, lats):
+    """`_lines_cross_unit_cell | _line_fully_in_unit_cell` on the nine images of every edge, and the copies `plot_plaquettes` draws of every plaquette, against the
+    Lean models `Plot.visible` / `Plot.polyOffsets` (theorems meets_visible, drawn_fractions_sum_one, needed_copies_drawn, polyOffsets_nodup)"""
+    import matplotlib.pyplot as plt
+    if not (hasattr(pl, "_lines_cross_unit_cell") and hasattr(pl, "_line_fully_in_unit_cell")):
+        ctx.count("tie_downgraded_visibility_helpers_not_found")
+    else:
+        cases, meta = [], []
+        for name, l in lats:
+            ev = l.vertices.positions[l.edges.indices].astype(float)
+            ev[:, 0, :] -= l.edges.crossing
+            offs = np.array([[i, j] for i in (-1, 0, 1) for j in (-1, 0, 1)], dtype=float)[:, None, None, :]
+            lines = (ev[None, ...] + offs).reshape(-1, 2, 2)
+            try:
+                got = np.asarray(pl._lines_cross_unit_cell(lines.copy())) | np.asarray(pl._line_fully_in_unit_cell(lines.copy()))
+            except Exception as ex:
+                ctx.corr_break(f"{name}: the visibility helpers raised {type(ex).__name__}: {ex}", dict(case=name)); continue
+            for k, ln in enumerate(lines):
+                S = (Fraction(float(ln[0, 0])), Fraction(float(ln[0, 1]))); E_ = (Fraction(float(ln[1, 0])), Fraction(float(ln[1, 1])))
+                if vis_margin(S, E_) < Fraction(1, 10 ** 9):
+                    ctx.count("visibility_images_excluded_non_generic"); continue
+                cases.append(q4(ln[0, 0]) + q4(ln[0, 1]) + q4(ln[1, 0]) + q4(ln[1, 1])); meta.append((name, k, bool(got[k]), ln))
+        if cases:
+            o = core.Driver().run([dict(op="visible", cases=cases)])[0]
+            if "err" in o:
+                ctx.corr_break(f"visibility model error {o['err']}", dict(case="visible"))
+            else:
+                nvis = 0
+                for (name, k, g, ln), m in zip(meta, o["vis"]):
+                    nvis += bool(m)
+                    if g != bool(m):
+                        ctx.corr_break(f"{name}: image #{k} {ln.tolist()} - the code's mask says {'drawn' if g else 'not drawn'}, the model Plot.visible says {'drawn' if m else 'not drawn'}",
+                                       dict(case=name, image=ln.tolist())); break
+                ctx.count("visibility_images_compared_with_model", len(cases)); ctx.count("visibility_images_visible", nvis)
+    polys, meta = [], []
+    for name, l in lats:
+        try:
+            F = l.n_plaquettes
+        except Exception:
+            continue
+        if not F:
+            continue
+        fig, ax = plt.subplots()
+        try:
+            with warnings.catch_warnings():
+                warnings.simplefilter("ignore")
+                colls = pl.plot_plaquettes(l, ax=ax)
+            for i, cc in enumerate(colls):
+                p = l.plaquettes[i]
+                vec = l.edges.vectors[p.edges] * p.directions[:, None]
+                pts = l.vertices.positions[p.vertices[0]] + np.cumsum(vec, 0)
+                if min(abs(float(c) - w) for c in pts.flatten() for w in (0, 1)) < 1e-9:
+                    ctx.count("polygon_copies_excluded_corner_on_a_wall_line"); continue
+                offs = []
+                for path in cc.get_paths():
+                    V = path.vertices[:-1] if len(path.vertices) == len(pts) + 1 else path.vertices
+                    offs.append([int(x) for x in np.round(V.mean(axis=0) - pts.mean(axis=0))])
+                polys.append([q4(x) + q4(y) for x, y in pts]); meta.append((name, i, sorted(offs)))
+        except Exception as ex:
+            ctx.corr_break(f"{name}: plot_plaquettes raised {type(ex).__name__}: {ex}", dict(case=name))
+        finally:
+            plt.close(fig)
+    if polys:
+        o = core.Driver().run([dict(op="polyoffsets", polys=polys)])[0]
+        if "err" in o:
+            ctx.corr_break(f"polygon-copies model error {o['err']}", dict(case="polyoffsets"))
+        else:
+            multi = 0
+            for (name, i, offs), m in zip(meta, o["offsets"]):
+                multi += len(m) > 1
+                if offs != sorted(m):
+                    ctx.corr_break(f"{name}: plaquette {i} is drawn at offsets {offs}, the model Plot.polyOffsets gives {sorted(m)}", dict(case=name, plaquette=i)); break
+            ctx.count("polygon_copy_sets_compared_with_model", len(polys)); ctx.count("polygons_drawn_more_than_once", multi)
 
 
 def subsets_for(rng, n):
@@ -391,6 +490,9 @@ def run(ctx):
             rep(f"plot_plaquettes raised {type(ex).__name__}: {ex}")
         finally:
             plt.close(fig)
+    # ---- the visible-image rules against the Lean models
+    tie_visibility(ctx, [(n, zoo.rebuild(l)) for n, l in lats if not zoo.has_self_loop(l) and l.n_edges >= 3] +
+                   [(n, zoo.rebuild(l)) for n, l in extra if not np.any(np.abs(l.edges.vectors) >= 1)])
     # ---- label broadcasting (`_broadcast_args`) against the model, on the function itself: scalar / full-size / subset-size / wrong-size arguments x subsets
     #      given as slice, mask, sorted / unsorted / permuted index lists, empty selections
     bc_cases, bc_meta = [], []
@@ -491,7 +593,7 @@ def run(ctx):
                                    dict(case=f"pair#{i}@2^-{sh}", pair=(allp[i] / G * sc).tolist())); break
             ctx.case(("intersect-scaled", sh, i), nontrivial=bool(o["hit"][i]))
     ctx.assumptions += ["matplotlib renders the artists it is handed (LineCollection segments, PolyCollection paths, scatter offsets) - the artists, not pixels, are judged",
-                        "the visible-image rule (crosses the cell or fully inside <=> meets the open cell) is not proved: it is decided per drawn image by exact clipping",
+                        "the visible-image rule is proved for generic images (meets_visible); images with a compared quantity within 1e-9 of its threshold are excluded from the model tie and judged by exact clipping only",
                         "polygon coverage is decided by exact clipping (Fractions) of every periodic image of every selected plaquette against the unit cell - each image of positive area must be drawn, once - and on a 17x17 generic sample grid with float point-in-polygon tests"]
 
 
